@@ -102,7 +102,7 @@ def sig_of(chosen, d):
 
 def run(ctx):
     thorough = ctx["tier"] == "thorough"
-    n = 5000 if thorough else 450
+    n = 5000 if thorough else 450 * ctx.get('scale', 1)
     violations, samples = [], []
     dist = collections.Counter()
     distinct = set()
